@@ -4,7 +4,11 @@
    each call then logs the path it returned.  The trace must be a behaviour of mech/TempName with the
    extracted program: every primitive is the next one of its thread's program and sees the model's
    counter value; every call returns a path only after completing its program; every path contains the caller's name part;
-   and all paths are pairwise different (Unique), also around 2^16, 2^32 and 2^48 where the harness moves the counter. *)
+   and all paths are pairwise different (Unique), also around 2^16, 2^32 and 2^48 where the harness moves the counter.
+   With Program = << >> only the property itself is validated (Unique and the name part over every returned path,
+   including the paths serialize::test takes internally): the primitives are consumed without being compared with a
+   program.  The orchestrator uses that mode when the full validation stops at a primitive - the code's protocol is
+   then not the modelled one (MODEL-DRIFT), which by itself is not a violation of the property. *)
 EXTENDS Naturals, Sequences, FiniteSets, TraceCommon
 CONSTANT Program
 VARIABLES l, counter, reg, pc, got, names
@@ -13,7 +17,10 @@ Threads == 0..63
 TraceInit == /\ l = 1 /\ counter = Rec[1].start /\ reg = [t \in Threads |-> 0] /\ pc = [t \in Threads |-> 1]
              /\ got = [t \in Threads |-> << >>] /\ names = {}
 Start == /\ l <= Len(Rec) /\ Rec[l].e = "start" /\ l = 1 /\ UNCHANGED <<counter, reg, pc, got, names>> /\ l' = l + 1
+NamesOnly == Program = << >>
+AtomicAny == /\ NamesOnly /\ l <= Len(Rec) /\ Rec[l].e = "atomic" /\ UNCHANGED <<counter, reg, pc, got, names>> /\ l' = l + 1
 Atomic ==
+    /\ ~NamesOnly
     /\ l <= Len(Rec) /\ Rec[l].e = "atomic"
     /\ LET e == Rec[l] t == e.thread op == Program[pc[t]] IN
          /\ e.op # "jump"
@@ -29,17 +36,17 @@ Atomic ==
               /\ got' = IF done THEN [got EXCEPT ![t] = Append(got[t], reg'[t])] ELSE got
     /\ UNCHANGED names /\ l' = l + 1
 \* test control: the harness moved the counter (to probe the name format around powers of two)
-Jump == /\ l <= Len(Rec) /\ Rec[l].e = "atomic" /\ Rec[l].op = "jump"
+Jump == /\ ~NamesOnly /\ l <= Len(Rec) /\ Rec[l].e = "atomic" /\ Rec[l].op = "jump"
         /\ counter' = Rec[l].new /\ UNCHANGED <<reg, pc, got, names>> /\ l' = l + 1
 Name ==
     /\ l <= Len(Rec) /\ Rec[l].e = "name"
     /\ LET e == Rec[l] t == e.thread IN
-         /\ Len(got[t]) > 0
+         /\ NamesOnly \/ Len(got[t]) > 0
          /\ e.has_part = TRUE                      \* the path contains the caller's name part
          /\ e.path \notin names                    \* Unique: no two calls in the process receive the same path
          /\ names' = names \cup {e.path}
-         /\ got' = [got EXCEPT ![t] = Tail(got[t])]
+         /\ got' = IF NamesOnly THEN got ELSE [got EXCEPT ![t] = Tail(got[t])]
     /\ UNCHANGED <<counter, reg, pc>> /\ l' = l + 1
-TraceNext == Start \/ Atomic \/ Jump \/ Name
+TraceNext == Start \/ Atomic \/ AtomicAny \/ Jump \/ Name
 TraceSpec == TraceInit /\ [][TraceNext]_vars
 =============================================================================
